@@ -25,7 +25,11 @@ LineJudge(ln, r) ==
         /\ RequiredOK(ln.req, ln.n, r.full)
   /\ ln.st = "error" => ln.calls = 0 /\ ln.read = 0
 
-LineOK(ln) == LineJudge(ln, StreamDecode(ln.buf, ln.n))
+(* "keeps no state between calls": a run of calls with the library's writable globals write-protected; *)
+(* a call that stores to one faults and is counted (the device is self-tested in the same run)          *)
+GlobalsOK(ln) == ln.selftest /\ ln.segments > 0 /\ ln.calls > 0 /\ ln.faults = 0
+
+LineOK(ln) == IF ln.e = "globals" THEN GlobalsOK(ln) ELSE LineJudge(ln, StreamDecode(ln.buf, ln.n))
 
 Init == l = 1
 Next == l <= Len(TraceLog) /\ LineOK(TraceLog[l]) /\ l' = l + 1
